@@ -86,6 +86,38 @@ UNITS += [
          lib=['rt_core.c', 'rt_atomic_seq.c'], spec=['C11/tp_spec.h', 'C11/h_tp.c'], harness='h_pool_await_fwd', enforce='ea_perform_resume', defines=[],
          under_contract=[EAWT + '::perform_resume(cocls::awaiter*, void*)'], timeout=300),
 ]
+# ---- co_await pool(awaitable), remaining members of enqueue_awaiter<co_awaiter<future<int>>> and the one-line rvalue forwarders (specs/C11/ea_spec.h):
+#      enforced contracts on the real bodies; the wrapped awaiter's members / the lvalue overloads are recording stubs (forwarder style)
+CAF = 'cocls::co_awaiter<cocls::future<int> >'
+EA = dict(
+    ea_ctor=rx(EAWT + '::enqueue_awaiter(%s&&, cocls::thread_pool&)' % CAF), ea_await_ready=rx(EAWT + '::await_ready()'),
+    ea_await_suspend=rx(EAWT + '::await_suspend(std::__n4861::coroutine_handle<void>)'), ea_await_resume=rx(EAWT + '::await_resume()'),
+    ea_pool_call=r'^cocls::thread_pool::enqueue_awaiter<decltype \(retrieve_awaiter\(.*\)\)> cocls::thread_pool::operator\(\)<cocls::future<int>&>\(cocls::future<int>&\)$',
+    caf_ready=rx(CAF + '::await_ready()'), caf_suspend=r'^cocls::co_awaiter<cocls::future<int> >::await_suspend\(cocls::suspend_point<void> \(\*\)\(cocls::awaiter\*, void\*\)( noexcept)?, void\*\)$',
+    caf_resume=rx(CAF + '::await_resume()'), ea_perform_resume_fn=EA_PR,
+    rv_resume_sp=EA_RES, rv_resume_sp_lv=RS_SP, rv_run_async=rx('cocls::future<int> cocls::thread_pool::run<int>(cocls::async<int>&&)'),
+    rv_run_async_lv=rx('cocls::future<int> cocls::thread_pool::run<int>(cocls::async<int>&)'), rv_fut_dtor=rx('cocls::future<int>::~future()'),
+)
+T_EA = {'TP': 'cocls::thread_pool', 'EAW': EAWT, 'CAF': 'cocls::co_awaiter<cocls::future<int> >', 'FUT': 'cocls::future<int>', 'AWT': 'cocls::awaiter', 'SP': 'cocls::suspend_point<void>', 'ASY': 'cocls::async<int>'}
+def unitE(name, alias, abstract=(), extra_names=None, **kw):
+    nm = {alias: EA[alias]}; nm.update(extra_names or {})
+    d = dict(name=name, driver='c11_pool.cpp', roots=[EA[alias]], names=nm, names_opt={a: EA[a] for a in abstract}, types=T_EA, globals={}, boundary=[EA[a] for a in abstract],
+             lib=['rt_core.c', 'rt_atomic_seq.c'], spec=['C11/ea_spec.h'], harness='h_' + name, enforce=alias, defines=[], under_contract=[EA[alias].strip('^$').replace('\\', '')], timeout=300)
+    d.update(kw)
+    d['boundary'] = d['boundary'] + list(kw.get('cut', []))
+    d.pop('cut', None)
+    return d
+UNITS += [
+    unitE('ea_ctor', 'ea_ctor'),
+    unitE('ea_pool_call', 'ea_pool_call', under_contract=['cocls::thread_pool::operator()<cocls::future<int>&>(cocls::future<int>&)', CAF + '::co_awaiter(cocls::future<int>&)', EAWT + '::enqueue_awaiter(%s&&, cocls::thread_pool&)' % CAF]),
+    unitE('ea_await_ready', 'ea_await_ready', abstract=['caf_ready']),
+    # perform_resume is referenced by address only (boundary: prototype); the unit checks that exactly that function is installed as resume callback
+    unitE('ea_await_suspend', 'ea_await_suspend', abstract=['caf_suspend', 'ea_perform_resume_fn']),
+    unitE('ea_await_resume', 'ea_await_resume', abstract=['caf_resume']),
+    unitE('resume_sp_rv_fwd', 'rv_resume_sp', abstract=['rv_resume_sp_lv']),
+    # the heavy subsystems are cut off (prototype only) so that a rewrite that no longer forwards is decided by the forwarding clauses instead of timing out
+    unitE('run_async_rv_fwd', 'rv_run_async', abstract=['rv_run_async_lv', 'rv_fut_dtor'], cut=[r'^cocls::future<int>::', r'cocls::async<int>::', r'^cocls::suspend_point<', r'^cocls::promise<int>::', r'cocls::thread_pool::resume<']),
+]
 UNITS += [
     dict(name='lemma_exactly_once', kind='lemma', driver='c11_pool.cpp', roots=[F['tp_is_current']], names={}, types={}, globals={}, boundary=[], lib=['rt_core.c', 'rt_atomic_seq.c'],
          spec=['C11/h_tp.c'], harness='h_lemma_exactly_once', loop_contracts=True, defines=['C11_LEMMA_EXACTLY_ONCE 1'],
@@ -95,7 +127,7 @@ UNITS += [
 CHT = 'std::__n4861::coroutine_handle<void>'
 TYPES_B = {'TP': 'cocls::thread_pool', 'QI': 'cocls::function<void (), 64UL>', 'FB': 'cocls::function_base<64UL, false, void>', 'CAW': 'cocls::thread_pool::co_awaiter',
            'SP': 'cocls::suspend_point<void>', 'SPB': 'cocls::suspend_point<bool>', 'PROM': 'cocls::promise<int>', 'FUT': 'cocls::future<int>', 'ASY': 'cocls::async<int>',
-           'EPTR': 'std::__exception_ptr::exception_ptr', 'IJOB': 'IntJob', 'CH': CHT}
+           'EPTR': 'std::__exception_ptr::exception_ptr', 'IJOB': 'IntJob', 'JOB': 'Job', 'CH': CHT}
 G = {   # functions of the closure level
     'aw_suspend': rx('cocls::thread_pool::co_awaiter::await_suspend(%s)' % CHT), 'aw_resume': rx('cocls::thread_pool::co_awaiter::await_resume()'),
     'aw_ready': rx('cocls::thread_pool::co_awaiter::await_ready()'), 'tp_co_await': rx('cocls::thread_pool::operator co_await()'),
@@ -140,6 +172,25 @@ UNITS += [
     unitB('run_async_stopped', ['tp_run_async'] + FNOPS, abstract=['tp_enqueue', 'cq_resume', 'ch_destroy', 'pr_dtor', 'sp_dtor', 'as_start'], types=['SP', 'SPB', 'PROM', 'FUT', 'ASY', 'CH'], harness='h_run_async',
           replay=dict(src='c11_stopped_pool.cpp', mode='run_async', flags=['-pthread', '-g'], timeout=60)),
 ]
+# ---- Fn = Job& (an lvalue callable: function<> stores a REFERENCE, FnInst<Job&> / FnInstSmall<Job&>): run_detached<Job&> and the type-erasure life cycle
+G.update(drv_rd_job=r'^drv_run_detached$', fn_from_job=r'^drv_fn_from_job$')
+UC.update(drv_rd_job='cocls::thread_pool::run_detached<Job&>(Job&) with cocls::function<void()>::function_base<Job&>(Job&), init<Job&>, FnInstSmall<Job&> (ctor, move ctor, move(void*,size), placement new / delete, dtor) and FnInst<Job&> (ctor, call, dtor)',
+          fn_from_job='cocls::function<void (), 64ul>::function_base<Job&>(Job&) life cycle: FnInstSmall<Job&>::move(void*, unsigned long) into a 64-byte and into a TOO SMALL buffer (-> FnInst<Job&> on the heap), FnInst<Job&>::move, call, deleting destructors')
+UNITS += [
+    unitB('run_detached_ref', ['drv_rd_job'] + FNOPS, abstract=['tp_enqueue'], types=['JOB'], spec=['C11/cl_spec.h', 'C11/h_cl.c', 'C11/h_ref.c']),
+    unitB('fn_life_ref', ['fn_from_job'] + FNOPS + ['fn_bool'], types=['JOB'], spec=['C11/cl_spec.h', 'C11/h_cl.c', 'C11/h_ref.c'],
+          extra_names={'fis_move_job': r'^cocls::function_base<64ul, false, void>::FnInstSmall<Job&>::move\(void\*, unsigned long\)$', 'fi_move_job': r'^cocls::function_base<64ul, false, void>::FnInst<Job&>::move\(void\*, unsigned long\)$'},
+          ptypes={'FISJ': r'^cocls::function_base<64ul, false, void>::FnInstSmall<Job&>::move\(void\*, unsigned long\)$#0'}),
+]
+# ---- co_await pool(awaitable) composed at the closure level: REAL enqueue_awaiter::await_suspend -> (the awaitable completes) -> REAL perform_resume -> REAL resume(suspend_point&&) /
+#      resume(suspend_point&) -> REAL closure + function<> machinery; the pool's answer and the fate of the accepted closure are inputs (same open finding as resume_sp_stopped)
+G.update(ea_suspend=EA['ea_await_suspend'], ea_pr=EA_PR, caf_suspend=EA['caf_suspend'])
+UC.update(ea_suspend='co_await pool(awaitable): enqueue_awaiter<co_awaiter<future<int>>>::await_suspend + perform_resume + thread_pool::resume(suspend_point<void>&&) + resume(suspend_point<void>&) with the closure it submits')
+TYPES_B.update(EAW=EAWT, CAF='cocls::co_awaiter<cocls::future<int> >', AWT='cocls::awaiter')
+UNITS += [
+    unitB('pool_await_stopped', ['ea_suspend', 'ea_pr'] + FNOPS, abstract=['caf_suspend', 'tp_enqueue', 'cq_resume', 'ch_destroy'], types=['SP', 'CH', 'EAW', 'CAF', 'AWT'],
+          spec=['C11/cl_spec.h', 'C11/h_cl.c', 'C11/h_ea.c'], replay=dict(src='c11_stopped_pool.cpp', mode='pool_call', flags=['-pthread', '-g'], timeout=60)),
+]
 META = dict(
     level='proof',
     level_text=(
@@ -147,7 +198,9 @@ META = dict(
         'mutex the other threads have executed any number of complete critical sections of enqueue / worker / stop): thread_pool::enqueue, worker '
         '(service loop incl. the real libstdc++ condition_variable::wait(lk,pred) loop with the real predicate), stop, ~thread_pool, thread_pool(unsigned) '
         'and its thread body, is_stopped, any_enqueued, is_current, current::is_stopped / any_enqueued / current_awaiter::await_ready, '
-        'resume(suspend_point<void>&) (forwarding facts, any size, both representations) and enqueue_awaiter::perform_resume (co_await pool(awaitable)). '
+        'resume(suspend_point<void>&) (forwarding facts, any size, both representations), enqueue_awaiter::perform_resume (co_await pool(awaitable)) and - forwarder contracts of '
+        'specs/C11/ea_spec.h with the wrapped awaiter / the lvalue overloads as recording stubs - thread_pool::operator()(future<int>&), enqueue_awaiter\'s constructor, await_ready, '
+        'await_suspend, await_resume, resume(suspend_point<void>&&) and run(async<int>&&). '
         'Closures are linear ghost ids; one arbitrary closure and one arbitrary worker-list index are tracked exactly (ghost-index idiom), totals are counted. '
         'Proved: enqueue pushes iff the exit flag is clear at the instant the lock is taken, wakes a worker, and leaves a rejected closure untouched with '
         'its owner; every closure a worker dequeues (under the lock) is invoked exactly once with the lock released and the thread-local current-pool '
@@ -166,9 +219,18 @@ META = dict(
         'closure are inputs): co_await pool - closure run => handle cleared first, coroutine resumed exactly once, deleter disarmed; destroyed un-run or '
         'rejected => the deleter resumes the coroutine exactly once with the handle still set and await_resume() throws await_canceled_exception; the '
         'awaiter is freed inside the resumption, so "never touched afterwards" is checked too. run(fn): value / the job\'s exception / broken promise '
-        '(destroyed un-run or rejected), exactly one resolution, job run at most once, nothing escapes into the worker. run_detached: job run at most '
+        '(destroyed un-run or rejected), exactly one resolution, job run at most once, nothing escapes into the worker. CO_AWAIT POOL(AWAITABLE): operator() binds the awaiter to THIS pool '
+        'and THE awaitable, nothing registered yet; await_ready / await_resume return exactly the wrapped awaiter\'s answer, asked once; await_suspend(h) records h FIRST (the callback may run at once '
+        'on another thread) and then subscribes the wrapped awaiter exactly once with (perform_resume, this) and returns the subscription\'s answer unchanged - suspended iff subscribed, never both '
+        '"continue now" and "callback pending" - leaving exactly the state unit pool_await_fwd requires of perform_resume; composed on the real pieces (unit pool_await_stopped: real await_suspend, '
+        'real perform_resume, real resume(suspend_point&&) / resume(suspend_point&), real closure and function<> machinery): the coroutine continues exactly once and only inside the run of the '
+        'closure on a worker. resume(suspend_point&&) = one resume(suspend_point&) on the same pool / suspend point, nothing left in the argument; run(async&&) = one run(async&) for THE coroutine '
+        'of the argument constructing the caller\'s future in place. run_detached: job run at most '
         'once, job object destroyed exactly once in every outcome. function<>: construct (small in place / large on the heap), move-construct, '
-        'move-assign, call, destroy, empty call -> bad_function_call; every target destroyed exactly once, no leak. A lemma over the contracts '
+        'move-assign, call, destroy, empty call -> bad_function_call; every target destroyed exactly once, no leak; the same for an LVALUE callable (Fn = Job&: the function object stores a '
+        'reference - units run_detached_ref / fn_life_ref): closure moved exactly once into the queue element and again into the worker\'s cell, each source left empty, the caller\'s job run at most once '
+        'and left untouched, and the SIZE DECISION of the small-buffer optimisation: FnInstSmall<Fn>::move(buffer, size) is driven with a buffer of exactly sizeof(FnInstSmall) (used in place, every '
+        'write inside it - CBMC bounds checks) and with every size below it (the buffer is never written, the target goes to one heap block, FnInst::move then only hands the pointer on). A lemma over the contracts '
         '(unbounded number of submit / serve / stop steps) concludes: never executed twice, never executed and cancelled, nothing left behind once stopped.'),
     level_note=(
         'History on the pinned tree: (1) DEFECT (audit D2), REPAIRED by /repo commit 2c65eee - stop() joined the workers before it destroys (= cancels) the swapped-out closures: a running job that waits for a queued '
@@ -179,7 +241,7 @@ META = dict(
         'TSan heap-use-after-free with dtor_free).  No small repair: needs a live-worker hand-shake (count under the mutex + wait in stop()/~thread_pool with self-discount rules for pool threads).  '
         'The clause is what discharges the assumption of unit worker "nobody but my own job destroys the pool while I may touch it".  '
         '(3) KNOWN FINDING - resume(suspend_point) and run(async) (and through them co_await pool(awaitable)) wrap raw '
-        'coroutine handles in plain closures; units resume_sp_stopped / run_async_stopped fail on the four obligations whose text starts with "C11-FINDING" '
+        'coroutine handles in plain closures; units resume_sp_stopped / run_async_stopped / pool_await_stopped fail on the six obligations whose text starts with "C11-FINDING" '
         '(closure rejected by a stopped pool / queued closure destroyed un-run by stop() => coroutine neither resumed nor cancelled; the future of run(async) '
         'stays pending forever); native reproduction replay/c11_stopped_pool.cpp. NEW FINDING - worker() destroys the executed closure after re-locking the '
         'pool mutex (obligation "a closure is destroyed while the pool mutex is held" in unit worker): a destructor of captured user state that touches the '
@@ -193,11 +255,15 @@ META = dict(
         'NOT COVERED: LIVENESS - "terminate and join without deadlock for every timing" is not provable in this family; only the safety side is proved '
         '(lock not held at join / detach / closure invocation / closure destruction, lock held at wait, no self-join, non-recursive lock, notify_all issued, '
         'exit flag monotone) - that a joined worker actually returns, that notified workers wake, fairness of the mutex are assumed. Also not covered: '
-        'ordering of execution (the queue is an abstract multiset; C11 claims none), resume<bool> / resume(&&) / run(async&&) (one-line forwarders of the '
-        'covered functions; resume<bool> is executed inside run_async_stopped), enqueue_awaiter::await_ready/await_suspend/await_resume (forward to the '
-        'wrapped awaiter), jobs that throw out of run_detached (std::terminate by design), '
+        'ordering of execution (the queue is an abstract multiset; C11 claims none), resume<bool>(suspend_point<bool>&&) (one-line forwarder; resume<bool>(&) is executed inside run_async_stopped), '
+        'the wrapped awaiter co_awaiter<future<int>> itself (properties C01/C02: that a subscribed callback is run exactly once when the future resolves is assumed in unit pool_await_stopped), '
+        'jobs that throw out of run_detached (std::terminate by design), '
         'a thread that called the public worker() by hand (it is not in the worker list: stop() / ~thread_pool do not wait for it, it re-locks the mutex of a possibly destroyed pool after its job - seen natively as a hang; its current-pool pointer is never restored), hardware_concurrency() == 0 (constructor then builds a pool '
-        'without workers: submissions wait until stop() cancels them). Bounded: resume_sp_stopped drives the real closures for suspend points of 0..4 '
+        'without workers: submissions wait until stop() cancels them). OBSERVATIONS of the new units: (a) co_await pool(awaitable) with an awaitable that is already resolved (await_ready() true, or resolved between '
+        'await_ready and the subscription: await_suspend returns false) continues on the CALLING thread - documented in thread_pool.h ("no thread is allocated and execution continues in current thread"), '
+        'so "executed on one of the pool\'s worker threads" holds only for the suspended case; reported, not counted as a violation (reachability sentinels name both cases). (b) run_detached(fn) / run(fn) with an LVALUE '
+        'callable store a REFERENCE to the caller\'s object in the queued closure (Fn = Job&; std::tuple<Fn> in run): the caller must keep it alive until a worker ran or stop() destroyed the closure - '
+        'unlike std::thread / std::async no decay-copy is made (units run_detached_ref / fn_life_ref verify exactly this reference semantics); native: replay/c11_lvalue_job_dangling.cpp (mode ref: a job submitted with id 1 runs with the id assigned after submission, exit 3; mode dangling: ASan heap-use-after-free in FnInst<Job&>::call on the worker); candidate patch specs/C11/fix_function_decay_copy.diff (function<> always stores std::decay_t<Fn>; replay clean and the 15 upstream tests pass with it; NOT applied - it is a change of interface semantics, and the two _ref units would have to be restated for value semantics). Bounded: resume_sp_stopped drives the real closures for suspend points of 0..4 '
         'coroutines (its unbounded counterpart resume_sp_fwd has the closure abstract).'),
     technique=('CBMC 6.11 code contracts + loop contracts enforced via goto-instrument --dfcc on the C translation of the clang IR of thread_pool.h (pool level, '
                'thread-modular with a rely step at every lock acquisition); plain exhaustive symbolic execution of the translated real closures and function.h '
@@ -211,6 +277,7 @@ META = dict(
         'std::mutex via pthread primitives with lock-discipline obligations and rely / snapshot hooks (lib/model_mutex.c + tp_on_lock / tp_on_unlock in lib/model_tpool2.c)',
         'closure level: thread_pool::enqueue as accept / reject input, coro_queue::resume as recording primitive whose resumed coroutine evaluates await_resume() and frees its awaiter, '
         'promise<int> as one word with recorded outcome (value / exception / dropped), async<int>::start as "claims the promise, hands back the coroutine", observation hooks of the driver\'s callables (drivers/c11_pool.cpp)',
+        'forwarder units of specs/C11/ea_spec.h: co_awaiter<future<int>>::await_ready / await_suspend(resume_fn, ctx) / await_resume as recording stubs with arbitrary answers (await_suspend installs the callback on the wrapped awaiter as the real one does); resume(suspend_point<void>&) as "empties the suspend point" (unit resume_sp_fwd); run(async<int>&) as "takes the coroutine out of the async object, builds the future in the return slot"; unit pool_await_stopped: the wrapped awaiter accepts the subscription and its resume chain runs the callback exactly once (C01)',
         'rely of the pool mutex: exit flag only false -> true, and from then on queue and worker list are empty; otherwise arbitrary queue length; the tracked closure may be taken by another worker or submitted by another thread; the stop() of another thread leaves the workers it took in that thread\'s hands (ghost env_unjoined: they may still be running)',
     ],
     assumptions=[
